@@ -400,6 +400,216 @@ def add_strings(prog, ndecl, names, promote):
     return {"pre": pre, "loop": loop}
 
 
+# ---- W6: helper functions.  prog["helpers"] = [{"name", "params": [(name, "int"|"bool"|"string")], "body": [stmts], "ret": expr | None}],
+#      statement ("call", target | None, helper, [args]).  Helpers come before the prologue; a body names its parameters and locals only
+#      (locals first assigned at the top level of the body, parameters never assigned), calls EARLIER helpers only, ends in at most one
+#      `return e`; every name of a helper (parameters u*/f*/z*, locals m*/g*/y*, counters k*, loop variables j*) is distinct from the
+#      module-level names.  ONE emitted definition per helper (measured on the parser): the definition-time parse types every parameter
+#      `int`; only a call whose type is inferred (`x = f(args)`) requests the signature of its argument types, a call statement requests
+#      nothing.  Hence: a helper has non-int parameters only if it returns a value and is called with a target at the top level of the
+#      prologue; every call passes arguments of exactly the parameter types; arguments of calls INSIDE a body are built so that their
+#      types do not depend on the parameter types (int names, comparisons of ints, literals: no bool/string names).
+def rename(e, m):
+    if isinstance(e, tuple):
+        if e and e[0] == "v":
+            return ("v", m.get(e[1], e[1]))
+        if e and e[0] == "s":
+            return e
+        return tuple(rename(x, m) for x in e)
+    if isinstance(e, list):
+        return [rename(x, m) for x in e]
+    return e
+
+
+class H:
+    def __init__(self, r, target_types, strings=True):
+        self.r, self.strings = r, strings
+        self.target_types = target_types      # module-level types with an assignable name: a helper with non-int parameters returns one of them
+        self.g = G(r)
+        self.helpers = []
+        self.loopvars = 0
+
+    def iexpr(self, d, ints):
+        return self.g.int_expr(d, list(ints))
+
+    def bexpr(self, d, ints, bools):
+        bools = list(bools)[:2]
+        m = dict(zip(BOOLS, bools))
+        return rename(self.g.bool_expr(d, list(ints) + BOOLS[: len(bools)]), m)
+
+    def sexpr(self, d, ints, strs):
+        return S(self.r, list(ints), 1).expr(d, list(strs)) if ints else S(self.r, ["0"], 1).lit()
+
+    def arg(self, ty, ints, bools, strs):
+        if ty == "int":
+            return self.iexpr(1, ints)
+        if ty == "bool":
+            return self.bexpr(1, ints, bools)
+        return self.sexpr(1, ints, strs)
+
+    def call(self, h, targets, ints, bools, strs, force_target=False):
+        """a call of helper `h`; `targets`: {type: [assignable declared names]}"""
+        r = self.r
+        args = [self.arg(t, ints, bools, strs) for _, t in h["params"]]
+        x = None
+        if h["ret"] is not None and targets.get(h["rty"]) and (force_target or r.random() < 0.7):
+            x = r.choice(targets[h["rty"]])
+        return ("call", x, h["name"], args)
+
+    def stmt(self, d, env, in_loop):
+        r = self.r
+        ints, bools, strs = env["ri"], env["rb"], env["rs"]
+        kinds = ["as", "as", "aug", "wr", "wr", "sl"] + (["if", "if", "for", "while"] if d > 0 else []) + (["brk"] if in_loop else [])
+        if self.helpers:
+            kinds += ["call", "call"]
+        k = r.choice(kinds)
+        if k == "call":
+            # argument types independent of the parameter types of THIS helper: int names only
+            return [self.call(r.choice(self.helpers), {"int": env["wi"], "bool": env["wb"], "string": env["ws"]}, ints, [], [])]
+        if k == "as":
+            if env["wb"] and r.random() < 0.3:
+                return [("as", r.choice(env["wb"]), self.bexpr(2, ints, bools))]
+            if env["ws"] and r.random() < 0.3:
+                return [("as", r.choice(env["ws"]), self.sexpr(1, ints, strs))]
+            return [("as", r.choice(env["wi"]), self.iexpr(2, ints))]
+        if k == "aug":
+            op = r.choice(list(BIN))
+            return [("aug", r.choice(env["wi"]), op, self.g.divisor(1, list(ints)) if op in DIV else self.iexpr(1, ints))]
+        if k == "wr":
+            if strs and r.random() < 0.3:
+                return [("wr", self.sexpr(1, ints, strs))]
+            return [("wr", self.iexpr(2, ints))]
+        if k == "sl":
+            return [("sl", ("i", r.randint(0, 20)))]
+        if k == "if":
+            els = self.block(d - 1, env, in_loop, r.randint(1, 2)) if r.random() < 0.4 else []
+            return [("if", self.bexpr(2, ints, bools), self.block(d - 1, env, in_loop, r.randint(1, 2)), els)]
+        if k == "for":
+            self.loopvars += 1
+            iv = f"j{self.loopvars}"
+            body = self.block(d - 1, env, True, r.randint(1, 2))
+            if r.random() < 0.6:
+                body.append(("wr", ("bin", "add", ("v", iv), ("i", 0))))
+            # the count names a PARAMETER (never assigned: the C++ loop re-evaluates its limit, K01h)
+            return [("for", iv, r.choice([("i", r.randint(0, 3)), ("min", [("abs", ("v", r.choice(env["pi"]))), ("i", 3)])]), body)]
+        if k == "while" and env["k"]:
+            cn = r.choice(env["k"])
+            if cn in env["busy"]:
+                return [("sl", ("i", 1))]
+            env2 = dict(env, busy=env["busy"] + [cn])
+            body = [("aug", cn, "add", ("i", 1))] + self.block(d - 1, env2, True, r.randint(1, 2))
+            return [("as", cn, ("i", 0)), ("while", ("cmp", "lt", ("v", cn), ("i", r.randint(0, 3))), body)]
+        if k == "brk":
+            return [("if", self.bexpr(1, ints, bools), [("brk",)], [])]
+        return [("sl", ("i", 2))]
+
+    def block(self, d, env, in_loop, n):
+        out = []
+        for _ in range(n):
+            out += self.stmt(d, env, in_loop)
+        return out
+
+    def helper(self):
+        r = self.r
+        idx = len(self.helpers) + 1
+        kinds = ["none"] + [t for t in ["int", "int", "int", "bool", "string"] if t in self.target_types and (t != "string" or self.strings)]
+        kind = r.choice(kinds)
+        typed = kind != "none" and r.random() < 0.7      # non-int parameters need a value call at the top level of the prologue
+        types = [r.choice(["int", "int", "int", "bool"] + (["string"] if self.strings else [])) if typed else "int" for _ in range(r.randint(1, 3))]
+        if "int" not in types:
+            types[0] = "int"
+        params = []
+        for j, t in enumerate(types):
+            params.append((f"{ {'int': 'u', 'bool': 'f', 'string': 'z'}[t]}{idx}{j}", t))
+        pi = [n for n, t in params if t == "int"]
+        pb = [n for n, t in params if t == "bool"]
+        pz = [n for n, t in params if t == "string"]
+        body, li, lb, lz, lk = [], [], [], [], []
+        for j in range(r.randint(1, 2)):
+            x = f"m{idx}{j}"
+            body.append(("as", x, self.iexpr(1, pi + li)))
+            li.append(x)
+        if r.random() < 0.4:
+            x = f"g{idx}"
+            body.append(("as", x, self.bexpr(1, pi + li, pb)))
+            lb.append(x)
+        if self.strings and r.random() < 0.3:
+            x = f"y{idx}"
+            body.append(("as", x, self.sexpr(1, pi + li, pz)))
+            lz.append(x)
+        if r.random() < 0.5:
+            x = f"k{idx}"
+            body.append(("as", x, ("i", 0)))
+            lk.append(x)
+        env = {"pi": pi, "ri": pi + li, "rb": pb + lb, "rs": pz + lz, "wi": li, "wb": lb, "ws": lz, "k": lk, "busy": []}
+        body += self.block(r.choice([1, 2, 2]), env, False, r.randint(1, 4))
+        ret, rty = None, None
+        if kind == "int":
+            ret, rty = r.choice([("v", r.choice(li)), self.iexpr(1, pi + li)]), "int"
+        elif kind == "bool":
+            ret, rty = self.bexpr(1, pi + li, pb + lb), "bool"
+        elif kind == "string":
+            ret, rty = self.sexpr(1, pi + li, pz + lz), "string"
+        h = {"name": f"h{idx}", "params": params, "body": body, "ret": ret, "rty": rty, "typed": any(t != "int" for t in types)}
+        self.helpers.append(h)
+        return h
+
+
+def add_helpers(prog, r, strings=True):
+    """define 1-3 helpers and sprinkle calls over the prologue (after the leading run of top-level declarations) and the main loop;
+    every helper is called at least once at the top level of the prologue (with a target when it has non-int parameters)"""
+    pre = list(prog["pre"])
+    k = 0
+    declared = []
+    while k < len(pre) and pre[k][0] == "as" and pre[k][1] not in declared:
+        declared.append(pre[k][1])
+        k += 1
+    gi = [n for n in declared if n in INTS]
+    gb = [n for n in declared if n in BOOLS]
+    gs = [n for n in declared if n in STRS]
+    targets = {"int": gi, "bool": gb, "string": gs}
+    hg = H(r, [t for t in targets if targets[t]], strings)
+    for _ in range(r.randint(1, 3)):
+        hg.helper()
+
+    def call():
+        return hg.call(r.choice(hg.helpers), targets, gi, gb, gs)
+
+    def inner(st):
+        kd = st[0]
+        if kd == "if":
+            els = st[3]
+            if len(els) == 1 and els[0][0] == "if":
+                els = [inner(els[0])]
+            elif els:
+                els = walk(els)
+            return ("if", st[1], walk(st[2]), els)
+        if kd == "for":
+            return ("for", st[1], st[2], walk(st[3]))
+        if kd == "seqw":
+            w = st[2]
+            return ("seqw", st[1], ("while", w[1], walk(w[2])))
+        return st
+
+    def walk(block):
+        out = []
+        for st in block:
+            if r.random() < 0.2:
+                out.append(call())
+            out.append(inner(st))
+        if r.random() < 0.25:
+            out.append(call())
+        return out
+
+    first = [hg.call(h, targets, gi, gb, gs, force_target=h["typed"]) for h in hg.helpers]
+    r.shuffle(first)
+    pre = pre[:k] + first + walk(pre[k:])
+    loop = prog["loop"]
+    if loop is not None:
+        loop = walk(loop)
+    return {"pre": pre, "loop": loop, "helpers": hg.helpers}
+
+
 def flatten(block):
     """expand the ('seqw', counter, while) helper into reset + while"""
     out = []
@@ -451,6 +661,7 @@ def py_block(block, ind):
         elif k == "wr": out.append(f"{pad}mon.write({py_expr(s[1])})")
         elif k == "sl": out.append(f"{pad}sleep({py_expr(s[1])})")
         elif k == "brk": out.append(f"{pad}break")
+        elif k == "call": out.append(f"{pad}{(s[1] + ' = ') if s[1] else ''}{s[2]}({', '.join(py_expr(a) for a in s[3])})")
         elif k == "raw": out += [pad + l for l in s[1].split("\n")]
         elif k == "if":
             out.append(f"{pad}if {py_expr(s[1])}:")
@@ -477,8 +688,18 @@ def py_block(block, ind):
 HEADER = ["from Reduino.Communication import SerialMonitor", "from Reduino.Utils import sleep", "mon = SerialMonitor(9600)"]
 
 
+def py_helpers(prog):
+    out = []
+    for h in prog.get("helpers", []):
+        out.append(f"def {h['name']}({', '.join(n for n, _ in h['params'])}):")
+        out += py_block(flatten(h["body"]), 1)
+        if h["ret"] is not None:
+            out.append(f"    return {py_expr(h['ret'])}")
+    return out
+
+
 def py_source(prog):
-    lines = list(HEADER) + py_block(flatten(prog["pre"]), 0)
+    lines = list(HEADER) + py_helpers(prog) + py_block(flatten(prog["pre"]), 0)
     if prog["loop"] is not None:
         lines.append("while True:")
         lines += py_block(flatten(prog["loop"]), 1)
@@ -520,6 +741,7 @@ def sx_block(block):
     elif k == "wr": h = f"(wr {sx_expr(s[1])})"
     elif k == "sl": h = f"(sl {sx_expr(s[1])})"
     elif k == "brk": h = "(brk)"
+    elif k == "call": h = f"(call {s[1] or '_'} {s[2]} ({' '.join(sx_expr(a) for a in s[3])}))"
     elif k == "if": h = f"(if {sx_expr(s[1])} {sx_block(s[2])} {sx_block(s[3])})"
     elif k == "while": h = f"(while {sx_expr(s[1])} {sx_block(s[2])})"
     elif k == "for": h = f"(for {s[1]} {sx_expr(s[2])} {sx_block(s[3])})"
@@ -529,5 +751,11 @@ def sx_block(block):
     return f"(seq {h} {sx_block(block[1:])})"
 
 
+def sx_helper(h):
+    ps = " ".join(f"({n} {t})" for n, t in h["params"])
+    return f"(def {h['name']} ({ps}) {sx_block(flatten(h['body']))} {'none' if h['ret'] is None else sx_expr(h['ret'])})"
+
+
 def sx_prog(prog):
-    return f"(prog {sx_block(flatten(prog['pre']))} {'none' if prog['loop'] is None else sx_block(flatten(prog['loop']))})"
+    defs = f" (defs {' '.join(sx_helper(h) for h in prog['helpers'])})" if prog.get("helpers") else ""
+    return f"(prog {sx_block(flatten(prog['pre']))} {'none' if prog['loop'] is None else sx_block(flatten(prog['loop']))}{defs})"
